@@ -1504,7 +1504,13 @@ static int _handle_sm(xmpp_conn_t *const conn,
         bind = conn->sm_state->bind;
         conn->sm_state->bind = NULL;
         reset_sm_state(conn->sm_state);
-        _do_bind(conn, bind);
+        if (bind) {
+            /* resumption failed: bind a resource instead */
+            _do_bind(conn, bind);
+        } else if (!conn->stream_negotiation_completed) {
+            /* <enable/> was refused: go on without stream management */
+            _stream_negotiation_success(conn);
+        }
     } else {
         /* unknown stanza received */
         name = NULL;
